@@ -270,7 +270,7 @@ contains
     case ("vec_str_count")
        allocate(character(len=b) :: names(a))
        do i = 1, a
-          names(i) = repeat("q", mod(i, b + 1))
+          names(i) = repeat("q", mod(i - 1, b + 1))
        end do
        call sim_phase(1); r = vec_str_count(names); call sim_phase(0); call res_int(int(r)); deallocate(names)
 #endif
@@ -305,7 +305,7 @@ contains
     case ("char_arr")
        allocate(character(len=b) :: names(a))
        do i = 1, a
-          names(i) = repeat("w", mod(i, b + 1))
+          names(i) = repeat("w", mod(i - 1, b + 1))
        end do
        call sim_phase(1); r = char_arr_len(names, int(a, C_INT)); call sim_phase(0); call res_int(int(r)); deallocate(names)
 #ifndef SIMC
@@ -318,10 +318,8 @@ contains
        allocate(character(len=a) :: buf); buf = text(1:min(a, len(text)))
        call sim_phase(1); r = str_val_in(buf); call sim_phase(0); call res_int(int(r)); deallocate(buf)
 #endif
-#ifndef SIMC
     case ("char_ret_len")
        call sim_phase(1); s = char_ret_len(int(a, C_INT)); call sim_phase(0); call res_str(s); deallocate(s)
-#endif
 #ifndef SIMC
     case ("char_ret_null")
        call sim_phase(1); s = char_ret_null(int(a, C_INT)); call sim_phase(0); call res_str(s); deallocate(s)
@@ -332,6 +330,12 @@ contains
        call sim_phase(1); call vec_iota_d(dv); call sim_phase(0)
        sm = 0; if (a > 0) sm = int(sum(dv) * 2)
        call res_arr(size(dv), sm); deallocate(dv)
+#endif
+#ifndef SIMC
+    case ("arr_fill_out")
+       allocate(dv(a + 1)); dv = -1.0d0
+       call sim_phase(1); call arr_fill_out(int(a, C_INT), dv); call sim_phase(0)
+       call res_arr(size(dv), int(sum(dv) * 2)); deallocate(dv)
 #endif
 #ifndef SIMC
     case ("ref_item")
